@@ -44,7 +44,7 @@ def kf_match(entry, prop, viol):
 # Drivers count, instead of reporting, the cases that fall under the narrow predicate of a listed library defect ("known_defect:<id>" and the like),
 # so that the rest of a space is explored.  Such a guard is only legitimate while the ledger lists the defect as known: once it is recorded as fixed
 # (or is not listed at all) a hit means that the defect has returned - or that something else now matches its predicate - and must be reported.
-GUARD_RE = re.compile(r"^(?:py_)?(?:known_defect(?:_hits|_skipped)?|skipped_known_defect):(.+)$")
+GUARD_RE = re.compile(r"^(?:py_|proc:)?(?:known_defect(?:_hits|_skipped)?|skipped_known_defect):(.+)$")
 GUARD_ALIASES = {("C07", "duplicate-notation-is-warning"): "duplicate-notation-declaration-only-warns"}
 
 
